@@ -58,6 +58,9 @@ def obligations(tier):
     return obs
 
 
+RANK = {"Bytes": 3, "fmt": 3, "PaddedString": 2, "RawPaddedString": 2, "AsciiFloat": 1, "AsciiInteger": 1}
+
+
 def is_spare(path):
     return bool(SPARE_RE.match(str(path[-1])))
 
@@ -78,6 +81,11 @@ def ob_spare(tier):
                 sources.add(tuple(p for p in k.split(".") if p != "@0" and not p.isdigit()))
     literal = []
     n_spare = 0
+    pinned_kinds = {}
+    for name, e in LS.load().items():
+        for lf_ in e["leaves"]:
+            if lf_["kind"]:
+                pinned_kinds.setdefault((name, tuple(lf_["path"])), set()).add(lf_["kind"][-1][0])
     for name in LS.registry():
         it, end, dom = LS.live(name)
         assumptions = list(it.constraints) + list(dom)
@@ -95,11 +103,55 @@ def ob_spare(tier):
             # (ii) total decoders on the declared character class
             if not (kinds[-1:] == ["PaddedString"] or kinds[-1:] == ["Bytes"] or kinds[-1:] == ["AsciiFloat"] or kinds[-1:] == ["AsciiInteger"] or kinds[-1:] == ["fmt"]):
                 literal.append({"what": "spare area decoded by an unexpected adapter", "field": lf.name, "kind": kinds})
+            # the live decoder accepts at least the character class the documented layout declares for the area:
+            # any bytes (Bytes / binary formats) > ASCII text (PaddedString) > numbers (AsciiFloat / AsciiInteger)
+            pk = pinned_kinds.get((name, tuple(str(p) for p in lf.path)))
+            if pk and kinds and RANK.get(kinds[-1], 0) < min(RANK.get(k, 0) for k in pk):
+                literal.append({"what": "spare area decoded by an adapter that rejects part of its declared character class", "field": lf.name, "live": kinds[-1], "pinned": sorted(pk)})
             # (iii) never a source of the tree
             key = tuple(str(p) for p in lf.path if str(p) != "*" and not str(p).isdigit())
             if key in sources:
                 literal.append({"what": "spare area reaches the tree", "field": lf.name})
-    res = S.result(spare_fields=n_spare)
+    # (iv) the PINNED spare areas (byte ranges of the documented layout) are not read by any live value field (confirmed by the garbage replay)
+    spec = LS.load()
+    n_pairs = 0
+    for name in LS.registry():
+        it, end, dom = LS.live(name)
+        assumptions = list(it.constraints) + list(dom)
+        pinned = []
+        for e in spec[name]["leaves"]:
+            if not is_spare(e["path"]):
+                continue
+            ren = {i[0]: i[0] + "__p" for i in e.get("idx", [])}
+
+            def term(lin_):
+                return LS.build(lin_["const"], {ren.get(k, k): v for k, v in lin_["coeffs"].items()})
+
+            cons = []
+            for iname, cnt, _ in e.get("idx", []):
+                cons += [z3.Int(ren[iname]) >= 0, z3.Int(ren[iname]) < term(cnt)]
+            pinned.append((".".join(e["path"]), term(e["off"]), term(e["width"]), cons))
+        overlaps = []
+        for lf in it.leaves:
+            if is_spare(lf.path):
+                continue
+            lo = lf.off if z3.is_expr(lf.off) else z3.IntVal(lf.off)
+            lw = lf.width if z3.is_expr(lf.width) else z3.IntVal(lf.width)
+            lcons = [c for idx, count, size in lf.idx for c in (idx >= 0, idx < count)]
+            for pname, po, pw, pcons in pinned:
+                ov = z3.simplify(z3.And(lw > 0, pw > 0, lo < po + pw, po < lo + lw))
+                n_pairs += 1
+                if z3.is_false(ov):
+                    continue
+                overlaps.append((lf.name, pname, z3.And(ov, *lcons, *pcons)))
+        if overlaps:
+            ok = S.holds(f"{name}:no value field reads a pinned spare area ({len(overlaps)} candidate pairs)", assumptions, z3.Not(z3.Or(*[o[2] for o in overlaps])), show=[])
+            if ok is False:
+                for lname, pname, ov in overlaps:
+                    if S.exists(f"{name}:{lname} overlaps {pname}", assumptions + [ov], show=[]):
+                        literal.append({"what": "a value field reads bytes of a spare area of the documented layout", "field": lname, "spare": pname})
+                        break
+    res = S.result(spare_fields=n_spare, spare_value_pairs=n_pairs)
     if literal:
         res["verdict"] = "violated" if res["verdict"] != "inconclusive" else res["verdict"]
         res["cex"] = list(res.get("cex", [])) + literal[:6]
